@@ -136,7 +136,13 @@ Theorem C01_commit_step_is_C02_handler : forall h tv m t st0 s1 j,
   /\ (sto hs (KTmp t) = None <-> get s2 (PTmp tv) = None)
   /\ (j = length (commit_calls h tv m) -> tpc (thr hs t) = Done ROk)
   /\ (tpc (thr hs t) = Done ROk -> sto hs (KFinal tv) = Some (By t)).
-Proof. exact commit_calls_refine_handlers. Qed.
+Proof.
+  intros h tv m t st0 s1 j H1 H2 H3 H4 Hj hs s2.
+  destruct (commit_calls_refine_handlers h tv m t st0 s1 j H1 H2 H3 H4 Hj) as (A & B & C & D & E).
+  fold hs s2 in A, B, C, D, E.
+  split; [exact A|]. split; [exact B|]. split; [exact C|]. split; [|exact E].
+  intro Hl. apply D. rewrite Hl. apply Nat.eqb_refl.
+Qed.
 Print Assumptions C01_commit_step_is_C02_handler.
 
 (* ---------- non-vacuity ---------- *)
